@@ -289,7 +289,7 @@ def strip_suffix(expr, suf):
 def T(s, line=None):
     return [Tok(x, line) for x in s.split()]
 
-def rewrite_loops(toks, user_iters=(), force_r1b=(), by_ref_loops=()):
+def rewrite_loops(toks, user_iters=(), force_r1b=(), by_ref_loops=(), keep_for=()):
     """R1 family, canonical output; loop ordinal k counts every `for` of the function in source order."""
     n_loop = [0]
     def rw(ts):
@@ -308,6 +308,10 @@ def rewrite_loops(toks, user_iters=(), force_r1b=(), by_ref_loops=()):
                 n_loop[0] += 1; q = str(n_loop[0])
                 body = rw(ts[k + 1:e])
                 is_range = any(t in ('..', '..=') for t in expr)
+                if int(q) in keep_for:
+                    # a `for` Verus accepts verbatim (e.g. `a.iter_mut().zip(&b)`): kept as written
+                    res += [ts[i]] + pat + [ts[j]] + expr + [ts[k]] + body + [ts[e]]
+                    i = e + 1; continue
                 rev = strip_suffix(expr, ['.', 'rev', '(', ')'])
                 if is_range and rev is not None and rev[0] == '(' and rev[-1] == ')':
                     inner = rev[1:-1]; dd = 0
@@ -458,7 +462,7 @@ def real_pipeline(ts, unit, path):
     post = [r for r in rules if r.get('stage') != 'pre']
     ts = apply_expr_rewrites(ts, pre)
     ui = [[str(x) for x in tokens(u)] for u in unit.get('user_iters', [])]
-    ts = rewrite_loops(ts, ui, tuple(unit.get('force_r1b', {}).get(path, [])), tuple(unit.get('r1_by_ref', {}).get(path, [])))
+    ts = rewrite_loops(ts, ui, tuple(unit.get('force_r1b', {}).get(path, [])), tuple(unit.get('r1_by_ref', {}).get(path, [])), tuple(unit.get('keep_for', {}).get(path, [])))
     ts = apply_expr_rewrites(ts, post)
     return ts
 
@@ -537,6 +541,9 @@ def erase(ts):
             real(t); ghost(ts[i + 1:i + 4]); close = match_close(ts, i + 1)
             for tok in ts[i + 4:close]: real(tok)
             ghost([ts[close]]); i = close + 1; continue
+        if t == 'in' and i + 2 < n and ts[i + 2] == ':' and ts[i + 1].isidentifier() and E and 'for' in E[-8:]:
+            # Verus `for x in it: expr` names the ghost iterator: `it :` is ghost
+            real(t); ghost(ts[i + 1:i + 3]); i += 3; continue
         if t in ('Ghost', 'Tracked') and i + 1 < n and ts[i + 1] == '(':
             j = match_close(ts, i + 1) + 1
             if j < n and ts[j] == ':':
